@@ -351,9 +351,9 @@ def main(argv=None):
     rep.extra["fresh_process_pairs_compared"] = sum(r.get("fresh_process_pairs", 0) for r in res)
     import superrec2.compute.reconciliation as m1, superrec2.compute.super_reconciliation as m5, superrec2.compute.unordered_super_reconciliation as m6
     import superrec2.model.synteny as m7, superrec2.model.reconciliation as m4
-    rep.functions = R.source_digest(m1.reconcile_thl, m5._spfs, m5._compute_spfs_entry, m5._make_prec_graph, m6._uspfs, m6._compute_uspfs_entry,
+    rep.functions = R.safe_digest(lambda: R.source_digest(m1.reconcile_thl, m5._spfs, m5._compute_spfs_entry, m5._make_prec_graph, m6._uspfs, m6._compute_uspfs_entry,
                                     m6._compute_gain_sets, m6._compute_lca_sets, m7.sort_synteny, m4.ReconciliationOutput.__hash__,
-                                    m4.SuperReconciliationOutput.__hash__)
+                                    m4.SuperReconciliationOutput.__hash__))
     rep.bounds = {"inputs": f"seeded: {n_small} inputs 2-3 leaves (five symbolic costs), {n_thl} plain inputs 5-10 object leaves / 3-8 species for thl, "
                             f"{n_mid} labelled inputs 4-5 leaves (dup, hgt, sloss symbolic); each under all six transformations; "
                             f"{n_sim} + {n_sim // 2} + {n_sim // 3} inputs simulated forward from the event model under two or three transformations",
